@@ -1,6 +1,7 @@
 package requests
 
 import (
+	"bytes"
 	"fmt"
 	"strconv"
 	"strings"
@@ -68,6 +69,17 @@ func TasksToMessages(msgs []SigningTask) ([]MessageToSign, error) {
 				signData = append(signData, data)
 			}
 		}
+	}
+	// Everything downstream (the FSM, the reconstruction, the signature store, the export) keys a
+	// message by its identifier, while the signer signs every entry of this list: two different
+	// payloads under one identifier (baked entries are named by their validator index) would be
+	// signed, yet only one of them checked, stored and exported.
+	seen := make(map[string][]byte, len(signData))
+	for _, m := range signData {
+		if payload, ok := seen[m.MessageID]; ok && !bytes.Equal(payload, m.Payload) {
+			return nil, fmt.Errorf("message id %q names two different payloads", m.MessageID)
+		}
+		seen[m.MessageID] = m.Payload
 	}
 	return signData, nil
 }
